@@ -200,6 +200,55 @@ async def _coap_api(rng, api, items, bad_ctl, form=None):
     return prob, vec, [r[2] for r in req], bodies
 
 
+async def _coap_map_api(rng, api, items, labels, bad_ctl, form=None):
+    """A batch whose list names characteristics more than once (labels: equality pattern of the ids) through the public
+    connection API.  The accessory answers every request item it receives: the k-th item for an iid gets the outcome of the
+    caller's k-th item for that characteristic.  Returns (problem or None, per distinct characteristic the dictionary
+    entry as [] | ["ok", item whose body it is, length] | ["fail", 0, 0], the form used)."""
+    acc = D.CoapAccessory(KEY_W, KEY_R)
+    acc.bad_ctl = bad_ctl
+    conn = _make_connection(acc)
+    bodies = _coap_bodies(rng, items, tlv=(api == "read"))
+    if api != "read":
+        bodies = [(oc, s, b"" if oc == "ok" else body, b"") for oc, s, body, _ in bodies]
+    in_db = rng.random() < 0.5 or api == "write"
+    base = 100 if in_db else 200
+    ids = [(1, base + lab) for lab in labels]
+    acc.by_iid = {}
+    for (oc, s, body, _), (_, iid) in zip(bodies, ids):
+        acc.by_iid.setdefault(iid, []).append((oc, s, body))
+    values = [bytes(rng.randrange(256) for _ in range(rng.choice([1, 4]))) for _ in items]
+    if api == "read":
+        form = form or rng.choice(["list", "tuple", "iterator"])
+        res = await conn.read_characteristics({"list": ids, "tuple": tuple(ids), "iterator": iter(ids)}[form])
+    elif api == "write":
+        res = await conn.write_characteristics([(a, i, v) for (a, i), v in zip(ids, values)])
+    elif api == "subscribe":
+        res = await conn.subscribe_to(ids)
+    else:
+        res = await conn.unsubscribe_from(ids)
+    prob = None
+    extra = set(res) - set(ids)
+    if extra:
+        prob = f"result has entries for characteristics that were not requested: {sorted(extra)}"
+    entries = []
+    for lab in range(1, max(labels) + 1):
+        e = res.get((1, base + lab))
+        if e is None:
+            entries.append([])
+        elif e.get("status", 0) != 0:
+            entries.append(["fail", 0, 0])
+        elif api == "read" and "value" in e:
+            v = e["value"] if e["value"] is not None else b""
+            own = [j for j, b in enumerate(bodies) if b[0] == "ok" and b[3] == v and labels[j] == lab]
+            other = [j for j, b in enumerate(bodies) if b[0] == "ok" and b[3] == v]
+            j = own[-1] if own else (other[0] if other else None)
+            entries.append(["ok", (j + 1) if j is not None else 0, len(bodies[j][2]) if j is not None else -1])
+        else:
+            entries.append(["other", 0, 0])
+    return prob, entries, form
+
+
 async def _run_case(ctx, rng, c, st):
     """Run one exported case on the real code; verdicts against the specification's expectation (and records for Pdu_Trace)."""
     from aiohomekit.controller.coap.pdu import decode_all_pdus
@@ -238,6 +287,39 @@ async def _run_case(ctx, rng, c, st):
         if "resp" not in sampled and c["fault"] == "flag_cont":
             sampled.add("resp")
             ctx.sample({"ble_response_case": c, "observed": outcome[0]})
+    elif part == "coapmap":
+        items = [tuple(it) for it in c["items"]]
+        labels = list(c["ids"])
+        ncoap[0] += 1
+        api = st.get("api") or ("read" if c["api"] == "read" else ("write", "subscribe", "unsubscribe")[ncoap[0] % 3])
+        ctx.case(("coapmap", tuple(items), tuple(labels), api))
+        bad_ctl = rng.choice([0x00, 0x04, 0x06, 0x08, 0x0C, 0x0E])
+        try:
+            prob, entries, form = await _coap_map_api(rng, api, items, labels, bad_ctl, st.get("form"))
+        except Exception as ex:  # noqa: BLE001
+            prob, entries, form = f"{type(ex).__name__}: {ex}", None, st.get("form")
+        if prob is None:
+            for lab, (e, allowed) in enumerate(zip(entries, c["allowed"]), start=1):
+                ok = any((e == [] and a[0] == "none") or (e[:1] == ["ok"] and a[0] == "ok" and e[1:] == a[1:])
+                         or (e[:1] == ["fail"] and a[0] not in ("ok", "none")) for a in allowed)
+                if not ok:
+                    mine = [j + 1 for j, x in enumerate(labels) if x == lab]
+                    prob = (f"characteristic #{lab} (items {mine} of the list) got {e or 'no entry'}; the specification allows "
+                            f"{['no entry' if a[0] == 'none' else a for a in allowed]}")
+                    break
+        src = {"case": c, "api": api, "form": form}
+        if prob:
+            fail(("coap-map", api), f"{api} of a batch with items {items} for characteristics {labels} (equal numbers = same id): {prob}",
+                 {"case": c, "api": api, "bad_ctl": bad_ctl, "form": form},
+                 signature=None)
+        else:
+            ctx.trace_ok()
+            if ncoap[0] % 3 == 0:
+                recs.append({"part": "coapmap", "items": [list(it) for it in items], "ids": labels, "api": c["api"], "map": entries,
+                             "_src": src})
+        if "coapmap" not in sampled and len(set(labels)) < len(labels) and len(items) == 3:
+            sampled.add("coapmap")
+            ctx.sample({"coap_repeated_ids_case": c, "api": api, "observed": entries})
     else:
         items = [tuple(it) for it in c["items"]]
         ctx.case(("coap", tuple(items)))
@@ -336,7 +418,22 @@ async def _random_run(ctx, kind, n, seed, st):
             items.append((oc, rng.randrange(1, 7) if oc == "err" else 0, ln))
         ctx.case(("coap", tuple(items)))
         bad_ctl = rng.choice([0x00, 0x04, 0x06, 0x08, 0x0C, 0x0E])
-        if tlv:
+        if tlv and rng.random() < 0.3:
+            # the list names some characteristic more than once; any of the four calls
+            labels = []
+            for _ in items:
+                labels.append(rng.randrange(1, max(labels, default=0) + 2))
+            api = rng.choice(["read", "read", "write", "subscribe", "unsubscribe"])
+            try:
+                prob, entries, form = await _coap_map_api(rng, api, items, labels, bad_ctl)
+            except Exception as ex:  # noqa: BLE001
+                prob, entries = f"raised {type(ex).__name__}: {ex}", None
+            if prob:
+                fail(("coap-map", api, "driver"), f"{api} of {items} for characteristics {labels}: {prob}", {"items": items, "src": src})
+                return
+            recs.append({"part": "coapmap", "items": [list(it) for it in items], "ids": labels, "api": "read" if api == "read" else "other",
+                         "map": entries, "_src": src})
+        elif tlv:
             try:
                 prob, vec, tids, _ = await _coap_api(rng, "read", items, bad_ctl)
             except Exception as ex:  # noqa: BLE001
@@ -387,6 +484,10 @@ def run(ctx):
     ctx.assume("content-independent model: body bytes are seeded random data, compared by the harness's independent reader",
                "'rejected' = ble_request raises an exception (any Exception class); a per-item CoAP error = any PDUStatus other "
                "than SUCCESS / a result entry with a non-zero status (the numeric code is not prescribed by the property)",
+               "a list that names the same characteristic twice: every distinct characteristic must get the result of one of its "
+               "own items (which one is left open - the code lets the later result of a read win and keeps any failure of the "
+               "other calls), none may get another characteristic's result or be missing; the request itself may be "
+               "de-duplicated (the simulated accessory answers every item it receives, the k-th item for an iid with the k-th outcome)",
                "AEAD is the real ChaCha20-Poly1305 on both sides (cryptography on the accessory side); a conformant accessory "
                "opens the k-th write under its k-th counter",
                "CoAP bodies of successful reads are well-formed value TLVs (lengths 0, 3, 300 in the enumerated space)")
@@ -452,6 +553,8 @@ def _rec_class(r):
         return ("req", r["enc"], r["n"] == 0, len(r["frags"]) > 1)
     if r["part"] == "resp":
         return ("resp", r["fault"], r["enc"], r["short"], r["out"])
+    if r["part"] == "coapmap":
+        return ("coapmap", r["api"])
     return ("coap", "request-shape" if len(r["reqtids"]) != len(r["items"]) else "result-vector")
 
 
@@ -505,7 +608,7 @@ def _replay_file(ctx):
     def fail(key, what, replay, signature=None):
         groups.setdefault(key, {"what": what, "replay": replay, "sig": signature})
     recs = []
-    st = {"recs": recs, "fail": fail, "layout_diff": [0], "ncoap": [0], "sampled": {"req", "resp", "coap"}}
+    st = {"recs": recs, "fail": fail, "layout_diff": [0], "ncoap": [0], "sampled": {"req", "resp", "coap", "coapmap"}}
     tmp = tempfile.mkdtemp(prefix="c17_")
     try:
         src = data.get("src") or ({"case": data["case"], "api": data.get("api"), "form": data.get("form")} if "case" in data else None)
@@ -515,7 +618,7 @@ def _replay_file(ctx):
                 st["api"], st["form"] = src["api"], src.get("form")
                 asyncio.run(_run_case(ctx, ctx.rng, c, st))
             else:
-                for k in range(5 if c["part"] == "coap" else 1):       # coap: one run per API path
+                for k in range(5 if c["part"] == "coap" else 3 if c["part"] == "coapmap" and c["api"] != "read" else 1):   # one run per API path
                     st["ncoap"][0] = k
                     asyncio.run(_run_case(ctx, ctx.rng, c, st))
             print(f"replay: case {json.dumps(c)[:200]} executed again on this tree ({len(recs)} fresh record(s) for Pdu_Trace)")
